@@ -35,7 +35,7 @@ def parseStep (s : String) : Option Map.EStep :=
   match s.splitOn ":" with
   | ["and_modify", a] => do pure (.andModify (← a.toNat?))
   | ["and_replace", k, a] => do pure (.andReplace (k == "1") (← a.toNat?))
-  | ["insert", kid, v, vid] => do pure (.insert (← kid.toNat?) (← v.toNat?) (← vid.toNat?))
+  | ["insert", kid, v, vid, a] => do pure (.insert (← kid.toNat?) (← v.toNat?) (← vid.toNat?) (← a.toNat?))
   | ["or_insert", l, kid, v, vid, a] => do
     pure (.orInsert (l == "1") (← kid.toNat?) (← v.toNat?) (← vid.toNat?) (← a.toNat?))
   | ["occ_remove"] => some .occRemove
